@@ -68,7 +68,9 @@ static void run_case(Case &c, Tape &t, Ctx &ctx) {
 	                        c.o.gzip_flag, c.o.hist_bits, c.table_kind, c.o.lbuf_size, c.o.lbuf_null ? "(NULL)" : "", c.level_name, data.size());
 	uint64_t ncalls = 1;
 	if (c.api <= 1) {
-		size_t cap = data.size() + data.size() / 8 + 4096; // generous; tight space is C10
+		size_t cap = data.size() + data.size() / 8 + 4096; // generous (what happens below the documented bound is C10's)
+		// one-shot calls: half of them get exactly the documented worst-case space plus 0..8 bytes - the stream must be just as complete
+		if (c.api == 0 && (mix64(dg::fingerprint(c.segs)) & 1)) cap = igz::stateless_bound(data.size(), c.o.gzip_flag) + (size_t) (mix64(dg::fingerprint(c.segs) ^ 0x77) % 9);
 		igz::CallInfo ci = d.call(data.data(), data.size(), cap, c.flush, true);
 		PBT_CHECK(!ci.faulted, key + ":fault", "%s: %s", where.c_str(), ci.problem.c_str());
 		PBT_CHECK(ci.problem.empty(), key + ":counters", "%s: %s", where.c_str(), ci.problem.c_str());
